@@ -95,28 +95,16 @@ Proof.
   - apply alloc_walloc in E as ([=] & _).
 Qed.
 
-(* decompose a goal `frs n0 h m c` structurally; leaves the leaves that need an argument about ids *)
-Ltac frs_step :=
-  first
-  [ solve [apply frs_ro; ro_tac]
-  | apply frs_bind_alloc; intros ? ?
-  | apply frs_bind; [ | intros ? ]
-  | apply frs_try
-  | apply frs_content_insert; solve [auto | right; lia]
-  | apply frs_modify_node; solve [auto | right; lia]
-  | apply frs_set_node; solve [auto | right; lia]
-  | match goal with
-    | |- frs _ _ _ (match ?x with _ => _ end) => destruct x
-    | |- frs _ _ _ (if ?b then _ else _) => destruct b
-    | |- frs _ _ _ (let '(_, _) := ?x in _) => destruct x
-    end ].
-Ltac frs_tac := repeat frs_step.
-
-Section Frame.
-Variable T : tables.
-Variable tab_el tab_en : nametab.
-Variable check_fn : N -> list N -> res bool.
-Variable LATEST : N.
+(* bind with a fact about the result of the first computation *)
+Lemma frs_bind_res n0 h m {A B} (c : W A) (k : A -> W B) (P : A -> Prop) :
+  frs n0 h m c ->
+  (forall w a w', n0 <= w_next w -> c w = Val (OK a, w') -> P a) ->
+  (forall a, P a -> frs n0 h m (k a)) -> frs n0 h m (wbind c k).
+Proof.
+  intros Hc HP Hk w r w' H Hn. apply wbind_inv in H as [(a & w1 & E & H) | (e & E & _)].
+  - exact (FR_trans _ _ _ _ _ _ (Hc _ _ _ E) (Hk a (HP _ _ _ Hn E) _ _ _ H) Hn).
+  - exact (Hc _ _ _ E Hn).
+Qed.
 
 (* index maintenance only touches the two maps of m *)
 Lemma frs_add_identifiable n0 h m p e : frs n0 h m (add_identifiable m p e).
@@ -135,7 +123,35 @@ Qed.
 Lemma frs_remove_reference_origin n0 h m p e : frs n0 h m (remove_reference_origin m p e).
 Proof. apply frs_modify_model_idx. intros x; split; reflexivity. Qed.
 
-(* ------------------------------------------------------------------ the local operations *)
+(* decompose a goal `frs n0 h m c` structurally (apply unifies through non-recursive definitions, so this walks
+   into the called functions); leaves the leaves that need an argument about ids *)
+Ltac frs_step :=
+  first
+  [ solve [apply frs_ro; ro_tac]
+  | apply frs_add_identifiable | apply frs_remove_identifiable | apply frs_fix_identifiables
+  | apply frs_add_reference_origin | apply frs_fix_reference_origins | apply frs_remove_reference_origin
+  | apply frs_modify_model_idx; solve [intros ?; split; reflexivity]
+  | apply frs_content_insert; solve [auto | right; lia]
+  | apply frs_modify_node; solve [auto | right; lia]
+  | apply frs_set_node; solve [auto | right; lia]
+  | apply frs_bind_alloc; intros ? ?
+  | apply frs_bind; [ | intros ? ]
+  | apply frs_try
+  | match goal with
+    | |- frs _ _ _ (match ?x with _ => _ end) => destruct x
+    | |- frs _ _ _ (if ?b then _ else _) => destruct b
+    | |- frs _ _ _ (let '(_, _) := ?x in _) => destruct x
+    end ].
+Ltac frs_tac := repeat frs_step.
+
+Section Frame.
+Variable T : tables.
+Variable tab_el tab_en : nametab.
+Variable check_fn : N -> list N -> res bool.
+Variable LATEST : N.
+Variable root_attrs : list (N * cdata).
+
+(* ------------------------------------------------------------------ building blocks *)
 Lemma frs_create_inner n0 h m self name pos version :
   (self = h \/ n0 <= self) -> frs n0 h m (create_sub_element_inner T self name pos version).
 Proof. intros Hs. unfold create_sub_element_inner. frs_tac. Qed.
@@ -152,15 +168,104 @@ Lemma frs_raw_set_cdata n0 h m i v version :
   (i = h \/ n0 <= i) -> frs n0 h m (raw_set_character_data T check_fn i v version).
 Proof. intros Hi. unfold raw_set_character_data. frs_tac. Qed.
 
+Lemma raw_create_sub_result self name v w a w' :
+  raw_create_sub_element T self name v w = Val (OK a, w') -> w_next w <= a.
+Proof.
+  unfold raw_create_sub_element, create_sub_element_inner. intros H.
+  wrun H idtac. all: try discriminate. all: try lia.
+Qed.
+
+(* a sub-element created below a fresh element is fresh: the rule for `do s <- raw_create_sub_element c ..; k s` *)
+Ltac frs_step2 :=
+  first
+  [ match goal with
+    | |- frs ?n0 _ _ (wbind (raw_create_sub_element _ _ _ _) _) =>
+      eapply (frs_bind_res n0 _ _ _ _ (fun a => n0 <= a));
+      [ | intros ? ? ? ? ?HH; apply raw_create_sub_result in HH; lia | intros ? ? ]
+    end
+  | frs_step ].
+Ltac frs_tac2 := repeat frs_step2.
+
 Lemma frs_create_named_inner n0 h m name item pos version :
   frs n0 h m (create_named_sub_element_inner T check_fn h name item pos m version).
+Proof. unfold create_named_sub_element_inner. frs_tac2. Qed.
+
+Lemma frs_raw_create_named n0 h m name item version :
+  frs n0 h m (raw_create_named_sub_element T check_fn h name item m version).
+Proof. unfold raw_create_named_sub_element. frs_tac2. all: apply frs_create_named_inner. Qed.
+Lemma frs_raw_create_named_at n0 h m name item pos version :
+  frs n0 h m (raw_create_named_sub_element_at T check_fn h name item pos m version).
+Proof. unfold raw_create_named_sub_element_at. frs_tac2. all: apply frs_create_named_inner. Qed.
+
+Lemma frs_raw_set_attribute n0 h m attr v version : frs n0 h m (raw_set_attribute T check_fn h attr v version).
+Proof. unfold raw_set_attribute. frs_tac. Qed.
+
+Ltac frs_step3 :=
+  first
+  [ apply frs_create_named_inner | apply frs_raw_create_named | apply frs_raw_create_named_at
+  | apply frs_raw_set_attribute
+  | apply frs_raw_set_cdata; solve [auto | right; lia]
+  | frs_step2 ].
+Ltac frs_tac3 := repeat frs_step3.
+
+(* ------------------------------------------------------------------ the public operations *)
+(* the frame with the model found by model_of (for operations that maintain the index) *)
+Definition FrameOf (h : id) (w w' : world) : Prop :=
+  exists m, CopyFrame h m w w' /\ (w_models w' = w_models w \/ model_of h w = Val (OK m, w)).
+
+Lemma FrameOf_refl h w : FrameOf h w w.
+Proof. exists 0. split; [apply CopyFrame_of_Ext, Ext_refl | auto]. Qed.
+
+(* operations that never touch a model record *)
+Lemma FrameOf_nomodel {A} h (c : W A) :
+  (forall n0 m, frs n0 h m c) -> forall w r w', c w = Val (r, w') -> FrameOf h w w'.
 Proof.
-  unfold create_named_sub_element_inner. frs_tac.
-  - apply frs_raw_create_sub. right. assumption.
-  - apply frs_raw_set_cdata. right.
-    (* the SHORT-NAME element was allocated after c *)
-    admit_placeholder.
-  - apply frs_add_identifiable.
+  intros Hc w r w' H. exists (N.of_nat (List.length (w_models w))).
+  pose proof (FR_CopyFrame h (N.of_nat (List.length (w_models w))) w w' (Hc _ _ _ _ _ H)) as F. split; auto.
+  left. destruct F as (_ & _ & _ & [E|(x & i & o & Hx & _)]); auto.
+  apply nth_opt_Some in Hx. rewrite Nnat.Nat2N.id in Hx. lia.
 Qed.
+
+(* operations that maintain the index of the model found by model_of: step over the read-only prefix, then the rest
+   respects the frame of that model *)
+Ltac frame_with_model hh ww H :=
+  wrun_ro H ltac:(apply FrameOf_refl);
+  try solve [apply FrameOf_refl];
+  match goal with
+  | Hm : model_of hh ww = Val (OK ?m, ww) |- _ =>
+    exists m; split;
+    [ apply FR_CopyFrame;
+      match type of H with
+      | ?c _ = _ => let F := fresh "F" in assert (F : frs (w_next ww) hh m c) by frs_tac3; exact (F _ _ _ H)
+      end
+    | right; exact Hm ]
+  end.
+
+Lemma frame_create_sub h name w r w' : e_create_sub_element T LATEST h name w = Val (r, w') -> FrameOf h w w'.
+Proof. apply FrameOf_nomodel. intros n0 m. unfold e_create_sub_element. frs_tac. Qed.
+Lemma frame_create_sub_at h name pos w r w' : e_create_sub_element_at T LATEST h name pos w = Val (r, w') -> FrameOf h w w'.
+Proof. apply FrameOf_nomodel. intros n0 m. unfold e_create_sub_element_at. frs_tac. Qed.
+Lemma frame_get_or_create h name w r w' : e_get_or_create_sub_element T LATEST h name w = Val (r, w') -> FrameOf h w w'.
+Proof. apply FrameOf_nomodel. intros n0 m. unfold e_get_or_create_sub_element. frs_tac. Qed.
+Lemma frame_insert_citem h t p w r w' : e_insert_character_content_item T h t p w = Val (r, w') -> FrameOf h w w'.
+Proof. apply FrameOf_nomodel. intros n0 m. unfold e_insert_character_content_item. frs_tac. Qed.
+Lemma frame_remove_citem h p w r w' : e_remove_character_content_item T h p w = Val (r, w') -> FrameOf h w w'.
+Proof. apply FrameOf_nomodel. intros n0 m. unfold e_remove_character_content_item. frs_tac. Qed.
+Lemma frame_set_attribute h a v w r w' : e_set_attribute T check_fn LATEST h a v w = Val (r, w') -> FrameOf h w w'.
+Proof. apply FrameOf_nomodel. intros n0 m. unfold e_set_attribute. frs_tac. Qed.
+Lemma frame_remove_attribute h a w r w' : e_remove_attribute T h a w = Val (r, w') -> FrameOf h w w'.
+Proof. apply FrameOf_nomodel. intros n0 m. unfold e_remove_attribute. frs_tac. Qed.
+Lemma frame_set_comment h c w r w' : e_set_comment h c w = Val (r, w') -> FrameOf h w w'.
+Proof. apply FrameOf_nomodel. intros n0 m. unfold e_set_comment. frs_tac. Qed.
+
+Lemma frame_create_named h name item w r w' :
+  e_create_named_sub_element T check_fn LATEST h name item w = Val (r, w') -> FrameOf h w w'.
+Proof. unfold e_create_named_sub_element. intros H. frame_with_model h w H. Qed.
+Lemma frame_create_named_at h name item pos w r w' :
+  e_create_named_sub_element_at T check_fn LATEST h name item pos w = Val (r, w') -> FrameOf h w w'.
+Proof. unfold e_create_named_sub_element_at. intros H. frame_with_model h w H. Qed.
+Lemma frame_get_or_create_named h name item w r w' :
+  e_get_or_create_named_sub_element T check_fn LATEST h name item w = Val (r, w') -> FrameOf h w w'.
+Proof. unfold e_get_or_create_named_sub_element. intros H. frame_with_model h w H. Qed.
 
 End Frame.
